@@ -47,9 +47,13 @@ type fsm struct {
 	eofRune rune
 }
 
-const maxRune = 0x300
+var maxRune rune = 0x300
 
 func Run(p *load.Program, tier string) *oblig.Set {
+	maxRune = 0x300
+	if tier == "thorough" {
+		maxRune = 0x3000 // every rune below U+3000 instead of U+0300
+	}
 	s := oblig.NewSet()
 	f := &fsm{p: p, name: map[*ssa.Function]string{}, T: map[*ssa.Function]map[rune]trans{}}
 	if !f.anchors(s) {
@@ -229,7 +233,7 @@ func constStr(c *ssa.Const) string {
 
 func (f *fsm) extract(s *oblig.Set) {
 	maxc, _ := f.runeConsts()
-	if maxc >= maxRune-1 {
+	if maxc >= int64(maxRune)-1 {
 		s.Unk("L0", "lexer rune constants", "-", fmt.Sprintf("a state function compares against rune %#x, beyond the sampled range; the class partition would be incomplete", maxc))
 	}
 	for r := rune(0); r < maxRune; r++ {
